@@ -59,11 +59,13 @@ Qed.
 (* ------------------------------------------------------------------------------------------ *)
 Section GMProofs.
   Variables W Inp Act Cont Rec : Type.
-  Variable init : W -> Inp -> Cont.
+  Variable init : W -> Inp -> Cont -> Cont.
   Variable eval : W -> Inp -> Act -> Cont -> W * Cont.
   Variable render : Cont -> Rec.
   (* an evaluation step does not write the shared WAF *)
   Hypothesis eval_ro : forall w i a c, fst (eval w i a c) = w.
+  (* newTransaction leaves nothing of what the recycled object held *)
+  Hypothesis init_reset : forall w i c c', init w i c = init w i c'.
 
   Notation tstep := (gm_tstep init eval render).
   Notation sh := (gm_sh W Cont Rec).
@@ -93,7 +95,8 @@ Section GMProofs.
     destruct pc as [|[|a| |] pc].
     - cbn. repeat split; auto.
     - destruct (nth_error (s_pool s) ch), (nth_error (s_pool ss) ch');
-        cbn [fst snd s_waf s_objs l_inp l_pc l_obj l_out]; rewrite !gm_upd_same, Hw; repeat split; auto.
+        cbn [fst snd s_waf s_objs l_inp l_pc l_obj l_out]; rewrite !gm_upd_same, Hw; repeat split; auto;
+        apply init_reset.
     - destruct ob as [o|], ob2 as [o2|]; try contradiction.
       + rewrite Hob, Hw.
         destruct (eval (s_waf ss) inp a (s_objs ss o2)) as [w' c'] eqn:E.
@@ -378,7 +381,7 @@ Theorem cc_outcome_schedule_independent : forall sched s ls i li,
   exists li', nth_error (snd (cc_run sched (s, ls))) i = Some li' /\
     gm_obs (fst (cc_run sched (s, ls))) li' =
     gm_obs (fst (cc_solo (gm_count i sched) s li)) (snd (cc_solo (gm_count i sched) s li)).
-Proof. exact (gm_outcome_schedule_independent _ _ _ _ _ cc_init (cc_eval true) cc_render cc_eval_clipped_ro). Qed.
+Proof. exact (gm_outcome_schedule_independent _ _ _ _ _ cc_init (cc_eval true) cc_render cc_eval_clipped_ro (fun _ _ _ _ => eq_refl)). Qed.
 
 (* the shared WAF is the same after any schedule *)
 Theorem cc_waf_unchanged : forall sched s ls, s_waf (fst (cc_run sched (s, ls))) = s_waf s.
@@ -401,7 +404,7 @@ Definition f27_inA := mk_cc_inp f27_args [[97%N]].
 Definition f27_inB := mk_cc_inp f27_args [[98%N]].
 Definition f27_sched := [(0,0);(0,0);(0,0);(1,0);(1,0);(1,0);(0,0);(0,0);(0,0)].
 Definition f27_state : gm_sh cc_waf cc_cont (list (bytes * bytes)) * list (gm_lo cc_inp cc_act cc_cont) :=
-  (gm_sh0 f27_waf (cc_init f27_waf f27_inA), [cc_tx f27_waf f27_inA; cc_tx f27_waf f27_inB]).
+  (gm_sh0 f27_waf cc_new, [cc_tx f27_waf f27_inA; cc_tx f27_waf f27_inB]).
 
 Theorem cc_unclipped_refuted :
   gm_inv (fst f27_state) (snd f27_state) /\
@@ -1014,7 +1017,7 @@ Proof. revert x; induction a as [|a IH]; intro x; cbn; auto. Qed.
 
 Section Acts.
   Variables W Inp Act Cont Rec : Type.
-  Variable init : W -> Inp -> Cont.
+  Variable init : W -> Inp -> Cont -> Cont.
   Variable eval : W -> Inp -> Act -> Cont -> W * Cont.
   Variable render : Cont -> Rec.
   Hypothesis eval_ro : forall w i a c, fst (eval w i a c) = w.
@@ -1103,11 +1106,11 @@ Proof.
     by (cbn [length]; rewrite app_length, map_length; cbn; lia).
   rewrite (gm_solo_add _ _ _ _ _ cc_init (cc_eval true) cc_render 1).
   (* TNew *)
-  set (s1 := fst (gm_solo cc_init (cc_eval true) cc_render 1 (gm_sh0 w (cc_init w inp))
+  set (s1 := fst (gm_solo cc_init (cc_eval true) cc_render 1 (gm_sh0 w cc_new)
                           (mk_gm_lo inp (TNew :: map TAct acts ++ [TLog; TClose]) None None))).
-  set (l1 := snd (gm_solo cc_init (cc_eval true) cc_render 1 (gm_sh0 w (cc_init w inp))
+  set (l1 := snd (gm_solo cc_init (cc_eval true) cc_render 1 (gm_sh0 w cc_new)
                           (mk_gm_lo inp (TNew :: map TAct acts ++ [TLog; TClose]) None None))).
-  assert (Hs1 : s_waf s1 = w /\ s_objs s1 0 = cc_init w inp /\ l_pc l1 = map TAct acts ++ [TLog; TClose] /\
+  assert (Hs1 : s_waf s1 = w /\ s_objs s1 0 = cc_new /\ l_pc l1 = map TAct acts ++ [TLog; TClose] /\
                 l_obj l1 = Some 0 /\ l_out l1 = None /\ l_inp l1 = inp).
   { subst s1 l1. cbn. repeat split; reflexivity. }
   destruct Hs1 as (Hw1 & Ho1 & Hp1 & Hb1 & Hu1 & Hi1).
@@ -1121,7 +1124,7 @@ Proof.
   { clearbody s2 l2. destruct l2 as [i2 pc2 ob2 out2]. cbn [l_pc l_obj] in Ap, Ab. subst pc2 ob2. reflexivity. }
   destruct (gm_solo cc_init (cc_eval true) cc_render 2 s2 l2) as [s3 l3]. cbn [snd] in Hfin. rewrite Hfin.
   rewrite Ao, Hw1, Hi1, Ho1, Hacts. cbn [fold_left].
-  set (c1 := snd (cc_eval true w inp (ACopy 0) (cc_init w inp))).
+  set (c1 := snd (cc_eval true w inp (ACopy 0) cc_new)).
   rewrite fold_left_app. cbn [fold_left].
   assert (Hwf1 : cc_wf w c1).
   { subst c1 w. unfold cc_wf, cc_array; cbn. rewrite app_length, repeat_length.
@@ -1259,4 +1262,64 @@ Theorem cw_early_return_refuted :
 Proof.
   vm_compute. split; [reflexivity|]. split; [reflexivity|].
   eexists. split; [reflexivity|]. split; [reflexivity|]. intros []; reflexivity.
+Qed.
+
+(* ------------------------------------------------------------------------------------------ *)
+(* 9. per-transaction settings on recycled objects                                              *)
+(* ------------------------------------------------------------------------------------------ *)
+Lemma st_merge_all_reset : forall w mask used old,
+  Forall (fun b => b = true) mask -> st_merge mask used w old = w.
+Proof.
+  induction w as [|wv w IH]; intros mask used old H; [reflexivity|]. cbn [st_merge].
+  assert (Hh : hd true mask = true) by (destruct H; auto). rewrite Hh. cbn [orb].
+  f_equal. apply IH. destruct H; cbn; auto.
+Qed.
+
+(* when newTransaction re-copies EVERY setting on every call, nothing of the recycled object is left *)
+Lemma st_init_reset mask : Forall (fun b => b = true) mask ->
+  forall w i c c', st_init mask w i c = st_init mask w i c'.
+Proof. intros H w i c c'. unfold st_init. rewrite !st_merge_all_reset by exact H. reflexivity. Qed.
+
+Lemma st_eval_ro : forall w i a c, fst (st_eval w i a c) = w.
+Proof. intros w i [ | | ] c; reflexivity. Qed.
+
+(* ... hence: for every interleaving and every choice of pooled objects, the settings a transaction
+   works with and the outcomes that depend on them are those of the transaction run alone *)
+Theorem st_outcome_schedule_independent : forall mask, Forall (fun b => b = true) mask ->
+  forall sched s ls i li,
+  gm_inv s ls -> nth_error ls i = Some li ->
+  exists li', nth_error (snd (gm_run (st_init mask) st_eval st_render sched (s, ls))) i = Some li' /\
+    gm_obs (fst (gm_run (st_init mask) st_eval st_render sched (s, ls))) li' =
+    gm_obs (fst (gm_solo (st_init mask) st_eval st_render (gm_count i sched) s li))
+           (snd (gm_solo (st_init mask) st_eval st_render (gm_count i sched) s li)).
+Proof.
+  intros mask H. exact (gm_outcome_schedule_independent _ _ _ _ _ (st_init mask) st_eval st_render st_eval_ro (st_init_reset mask H)).
+Qed.
+
+(* a setting that is only copied when the object is brand new (mask false): transaction 0 lowers it by
+   ctl and closes; transaction 1, which has no ctl, draws the same object from the pool and its
+   outcome (a body of 200 bytes against the limit) differs from its outcome alone *)
+Definition st_leak_state : gm_sh (list nat) st_cont (list bool) * list (gm_lo unit st_act st_cont) :=
+  (gm_sh0 [4096] st_brand_new, [st_tx [SSet 0 64]; st_tx [SObs 0 200]]).
+Definition st_leak_sched := [(0,0);(0,0);(0,0);(0,0);(1,0);(1,0);(1,0);(1,0)].
+Theorem st_first_use_only_refuted :
+  gm_inv (fst st_leak_state) (snd st_leak_state) /\
+  let st := gm_run (st_init [false]) st_eval st_render st_leak_sched st_leak_state in
+  let alone := gm_solo (st_init [false]) st_eval st_render (gm_count 1 st_leak_sched) (fst st_leak_state) (st_tx [SObs 0 200]) in
+  option_map (fun l => option_map st_out (l_out l)) (nth_error (snd st) 1) = Some (Some [false]) /\
+  option_map st_out (l_out (snd alone)) = Some [true].
+Proof.
+  split.
+  - apply gm_inv_start; cbn.
+    + intros l [<-|[<-|[]]]; reflexivity.
+    + constructor.
+    + intros o [].
+  - split; vm_compute; reflexivity.
+Qed.
+
+(* run alone, a transaction starts from the WAF-wide settings *)
+Lemma st_alone_starts_from_waf w acts : fst (st_alone w acts) = w.
+Proof.
+  unfold st_alone; cbn [fst st_init st_vals]. apply st_merge_all_reset.
+  induction w; cbn; constructor; auto.
 Qed.
